@@ -40,16 +40,25 @@ def _bootstrap_schema_migrations(conn: sqlite3.Connection) -> None:
     uv_row = cur.execute("PRAGMA user_version").fetchone()
     legacy_version = int(uv_row[0]) if uv_row else 0
 
-    cur.executescript(_SCHEMA_MIGRATIONS_DDL)
-
-    if legacy_version > 0:
+    # Create the table and seed it in one transaction. If the process stops (or a
+    # write fails) in between, an empty table must not be left behind: the next
+    # start would take it for "nothing applied yet" and run every migration again
+    # on a database that already has them.
+    conn.commit()
+    cur.execute("BEGIN")
+    try:
+        cur.execute(_SCHEMA_MIGRATIONS_DDL)
         # Seed rows for existing server migrations
         for v in range(1, legacy_version + 1):
             cur.execute(
                 "INSERT OR IGNORE INTO schema_migrations (package, version) VALUES (?, ?)",
                 ("server", v),
             )
-        conn.commit()
+        cur.execute("COMMIT")
+    except BaseException:
+        cur.execute("ROLLBACK")
+        raise
+    if legacy_version > 0:
         logger.debug(
             "Bootstrapped schema_migrations from PRAGMA user_version=%d", legacy_version
         )
